@@ -247,6 +247,14 @@ int32_t chooseSkeSigAlgTls12(ssl_t *ssl, sslIdentity_t *id)
         psTraceInfo("Unavailable sigAlgorithm for SKE write\n");
         return PS_UNSUPPORTED_FAIL;
     }
+    if (MATRIX_IS_SERVER(ssl) && ssl->peerSigAlg != 0 &&
+            !peerSupportsSigAlg(sigAlg, sigAlgMask))
+    {
+        /* chooseSigAlg falls back to the algorithm our certificate is
+           signed with when nothing in the mask suits it. */
+        psTraceInfo("No shared sigAlgorithm usable for SKE write\n");
+        return PS_UNSUPPORTED_FAIL;
+    }
     return sigAlg;
 }
 
